@@ -249,6 +249,8 @@ define(void)
 
 	/* read macro body */
 	i = macroparam(m, t);
+	if (t->kind == TIDENT && strcmp(t->lit, "__VA_ARGS__") == 0 && !macrovarargs(m))
+		error(&t->loc, "__VA_ARGS__ can only be used in variadic function-like macros");
 	while (t->kind != TNEWLINE && t->kind != TEOF) {
 		if (t->kind == THASHHASH)
 			error(&t->loc, "'##' operator is not yet implemented");
@@ -530,6 +532,8 @@ expandfunc(struct macro *m)
 		}
 		if (t->kind == TRPAREN)
 			break;
+		if (i + 1 == m->nparam)
+			error(&t->loc, "too many arguments for macro '%s'", m->name);
 		t = rawnext();
 	}
 	if (i + 1 < m->nparam)
